@@ -242,7 +242,139 @@ def ring_shape(ctx):
         ctx.find(P, 'RF1-emcy-ring', f, 'ring:absent', m.loc(f, m.funcs[f].line), 'history of depth 0 is accessed')
 
 
+def register_step(ctx):
+    """COEmcyUpdate preserves the invariant  bit k of 1001h <=> Cnt[k] > 0 (k >= 1),  bit 0 <=> any Cnt > 0,
+    decided by folding the update over every consistent abstract pre-state (counts 0/1/2 in three classes)"""
+    m = ctx.m
+    f = 'COEmcyUpdate'
+    m.need(f)
+    import itertools
+    n = 0
+    classes = (0, 2, 5)                 # generic class 0 and two others
+    for k in classes:
+        for state in (0, 1):
+            for cnts in itertools.product((0, 1, 2), repeat=3):
+                c = dict(zip(classes, cnts))
+                if state == 0 and c[k] == 0:
+                    continue            # clearing an error that is not active does not reach the update
+                reg = 0
+                for cl, v in c.items():
+                    if v and cl:
+                        reg |= (1 << cl)
+                if any(c.values()):
+                    reg |= 1
+                inputs = {'emcy': 1, 'usr': 0, 'err': 3, 'state': state, 'emcy->Node': 1, 'emcy->Root': 1,
+                          'emcy->Root[3].Reg': k, 'out:CODictRdByte:2': reg, 'call:CODictRdByte': 0}
+                for cl in range(8):
+                    inputs['emcy->Cnt[%d]' % cl] = c.get(cl, 0)
+                pe = PEval(m, f)
+                pe.record_sets = False
+                pe.keep_prefixes = ('emcy->Cnt', 'emcy->Root')
+                pe.store_filter = lambda key, fld: fld == ('CO_EMCY', 'Cnt')
+                trs = pe.run(inputs)
+                n += 1
+                site = 'class %d %s, counts %s, register %02Xh' % (k, 'set' if state else 'clear', c, reg)
+                bad = None
+                if len(trs) != 1:
+                    bad = '%d paths' % len(trs)
+                else:
+                    t = trs[0]
+                    wr = [c_ for c_ in t.calls() if c_[1] == 'CODictWrByte']
+                    c2 = dict(c)
+                    c2[k] = c[k] + (1 if state else -1)
+                    exp = 0
+                    for cl, v in c2.items():
+                        if v and cl:
+                            exp |= (1 << cl)
+                    if any(c2.values()):
+                        exp |= 1
+                    cnt_st = dict((e[1], e[2]) for e in t.stores())
+                    if cnt_st.get('emcy->Cnt[%d]' % k) != c2[k]:
+                        bad = 'class counter becomes %s, required %d' % (cnt_st.get('emcy->Cnt[%d]' % k), c2[k])
+                    elif not wr or wr[0][2][1] != 0x10010000 or wr[0][2][2] != exp:
+                        bad = 'error register written %s, required %02Xh (bit k iff an error of class k is active, bit 0 iff ' \
+                              'any error is active; counts after the step %s)' % (['%02X' % (c_[2][2] or 0) for c_ in wr], exp, c2)
+                    hist = t.call_names().count('COEmcyHistAdd')
+                    if hist != (1 if state else 0):
+                        bad = 'history entries added: %d' % hist
+                if bad:
+                    ctx.ob(P, 'RF1-emcy-register', f, site, None)
+                    ctx.find(P, 'RF1-emcy-register', f, 'register:%s' % bad.split(',')[0][:40], m.loc(f, m.funcs[f].line), '%s: %s' % (site, bad))
+                else:
+                    ctx.ob(P, 'RF1-emcy-register', f, site, 'invariant preserved')
+    ctx.inst('RF1.emcy-register.states', n)
+    # COEmcyCnt sums all class counters
+    trs = _run(m, 'COEmcyCnt', dict(('emcy->Cnt[%d]' % i, i) for i in range(8)))
+    bad = None
+    for t in trs:
+        if t.ret != sum(range(8)):
+            bad = 'returns %s for counters 0..7' % t.ret
+    if bad:
+        ctx.ob(P, 'RF1-emcy-register', 'COEmcyCnt', 'sum of class counters', None)
+        ctx.find(P, 'RF1-emcy-register', 'COEmcyCnt', 'count', m.loc('COEmcyCnt', m.funcs['COEmcyCnt'].line), bad)
+    else:
+        ctx.ob(P, 'RF1-emcy-register', 'COEmcyCnt', 'sum of class counters', 'ok')
+
+
+def hist_read(ctx):
+    """1003h:n reads the n-th newest entry: ring slot = Off-(n-1), wrapping by the depth; entries above the fill
+    level read 0; the reset clears position and fill level"""
+    m = ctx.m
+    f = 'COTEmcyHistRead'
+    m.need(f, 'COEmcyHistReset')
+    NONE = m.enum('CO_ERR_NONE')
+    for mx in (1, 3, 5):
+        for num in range(0, mx + 1):
+            for off in range(0, mx + 1):
+                if num and not off:
+                    continue
+                if num < mx and off != num:
+                    continue        # before the first wrap the newest entry sits at position == fill level
+                for sub in range(1, mx + 1):
+                    trs = _run(m, f, {'obj->Key': 0x10030000 | (sub << 8), 'node->Emcy.Hist.Max': mx, 'node->Emcy.Hist.Num': num,
+                                      'node->Emcy.Hist.Off': off, 'emcy->Hist.Max': mx, 'emcy->Hist.Num': num, 'emcy->Hist.Off': off,
+                                      'call:CODictFind': 1, 'call:COTInt32Read': NONE, 'size': 4},
+                               filt=lambda k, fld: True)
+                    site = '1003h:%d depth=%d fill=%d position=%d' % (sub, mx, num, off)
+                    bad = None
+                    for t in trs:
+                        finds = [c[2][1] for c in t.calls() if c[1] == 'CODictFind']
+                        if sub <= num:
+                            slot = off - (sub - 1)
+                            if slot < 1:
+                                slot += mx
+                            if finds != [0x10030000 | (slot << 8)]:
+                                bad = 'reads ring slot %s, required slot %d (newest first)' % (
+                                    [((x or 0) >> 8) & 0xFF for x in finds], slot)
+                        else:
+                            if finds:
+                                bad = 'entry above the fill level reads ring slot %s' % [((x or 0) >> 8) & 0xFF for x in finds]
+                    if bad:
+                        ctx.ob(P, 'RF1-emcy-histread', f, site, None)
+                        ctx.find(P, 'RF1-emcy-histread', f, 'histread:%s' % bad.split(',')[0][:30], m.loc(f, m.funcs[f].line), '%s: %s' % (site, bad))
+                    else:
+                        ctx.ob(P, 'RF1-emcy-histread', f, site, 'ok')
+    f = 'COEmcyHistReset'
+    trs = _run(m, f, {'emcy->Node': 1, 'call:CODictFind': 1, 'emcy->Hist.Max': 3, 'emcy->Hist.Off': 2, 'emcy->Hist.Num': 2},
+               filt=lambda k, fld: fld is not None and fld[0] == 'CO_EMCY_HIST')
+    bad = None
+    for t in trs:
+        d = dict((e[1], e[2]) for e in t.stores())
+        finds = [c[2][1] for c in t.calls() if c[1] == 'CODictFind']
+        if d.get('emcy->Hist.Off') != 0 or d.get('emcy->Hist.Num') != 0:
+            bad = 'after the reset position=%s fill=%s (both must be 0)' % (d.get('emcy->Hist.Off', 'unchanged'), d.get('emcy->Hist.Num', 'unchanged'))
+        elif finds != [0x10030000, 0x10030100, 0x10030200, 0x10030300]:
+            bad = 'cleared entries %s' % [hex(x) if x is not None else None for x in finds]
+    if bad:
+        ctx.ob(P, 'RF1-emcy-histread', f, 'history reset', None)
+        ctx.find(P, 'RF1-emcy-histread', f, 'histreset', m.loc(f, m.funcs[f].line), 'COEmcyHistReset: %s' % bad)
+    else:
+        ctx.ob(P, 'RF1-emcy-histread', f, 'history reset', 'count, all entries, position and fill level cleared')
+
+
 def run(ctx):
+    register_step(ctx)
+    hist_read(ctx)
     transitions(ctx)
     send_gates(ctx)
     frame_shape(ctx)
